@@ -216,6 +216,17 @@ def random_case(rng):
         opts["oks_scale"] = float(rng.choice([100, 400, 2500]))
     if rng.random() < 0.15:
         opts["match_threshold"] = 0.3
+    r2 = rng.random()
+    if r2 < 0.2:
+        # user_labels_only=False: ground-truth instances that are PredictedInstances count like any other (seed C16_r6)
+        opts["user_labels_only"] = False
+        for fr in frames:
+            fr["gt_as_pred"] = [rng.random() < 0.4 for _ in fr["gt"]]
+    elif r2 < 0.4:
+        # default user_labels_only=True: predicted instances lying in the ground-truth frames must be ignored
+        for fr in frames:
+            if fr["gt"] and rng.random() < 0.5:
+                fr["gt_extra_pred"] = [[[rng.randint(0, 60), rng.randint(0, 60)] for _ in range(N)]]
     if len(frames) >= 2 and rng.random() < 0.3:
         # the frames live in two videos embedded in one package file (same filename, different HDF5 dataset) and share
         # frame numbers: pairing must keep them apart (seed C16_r5)
